@@ -32,7 +32,10 @@ fn line_step(line: &str, rmi_str: &str, dst_line: usize, prev_dst_col: u32, toke
     let names = LenOnly(0);
     let sources = LenOnly(0);
     let mut nums: Vec<i64> = Vec::with_capacity(16);
-    let mut rmi = MockRmi { bits: 0, len: 0 };
+    // the bit vector is reused from line to line: whatever the previous line left in it
+    // must not matter
+    let mut rmi = MockRmi { bits: kani::any(), len: kani::any() };
+    kani::assume(rmi.len <= 8);
     for _once in 0..1 {
         /*@LIFT decoder_line_body@*/
     }
